@@ -392,6 +392,12 @@ def jobs(tier):
                 probs=[0.9, 0.5, 0.2], ranks=[(7 * j + 3) % 8
                                               for j in range(8)], **extra),
                 dict(FACADE, max_decisions=40000)))
+        # probabilities that differ only in the third decimal
+        out.append(('bands', 'case_bands', dict(
+            figure=f, times=[1.0], n_samples=[12],
+            probs=[0.5, 0.33, 0.334], ranks=[(7 * j + 3) % 12
+                                             for j in range(12)]),
+            dict(FACADE, max_decisions=40000)))
         # time points that first appear in non-ascending order
         for times_, n in (([2.5, 1.0], [3, 2]), ([1.0, 4.0, 2.5], [2, 3, 2]),
                           ([4.0, 2.5, 1.0], [3, 1, 2])):
